@@ -32,40 +32,55 @@ def check(ctx):
     f = P.func(q)
     ctx.touch(q)
     it = interp(ctx)
-    paths = returns(it.run_function(q))
-    if len(paths) != 1:
-        raise AnalysisError(f"{q}: expected one partition")
-    p = paths[0]
-    evs = [e for e in p.events if e.kind == "ext_call" and e.data["callee"] in QUADRATURE]
-    ctx.floor("C15-a", len(evs), 1, "quadrature call in pseudopressure_threephase")
-    if len(evs) != 1:
-        raise AnalysisError(f"{q}: expected exactly one quadrature call, found {len(evs)}")
-    ev = evs[0]
-    where = f"{f.file}:{ev.line}"
-    y = check_quadrature(ctx, "C15-a", ev, it, {"pressure"}, q + ":cumulative_trapezoid", where)
-    # the function returns the quadrature result itself (times a constant at most)
-    res = ev.data["result"]
-    rv = it.to_nf(p.value)
-    ra = it.to_nf(res)
-    ratio = nf.div(rv, ra)
-    ctx.check(
-        nf.is_const(ratio) and nf.cval(ratio) > 0, "C15-a", q + ":return", f.where(),
-        "the function returns the cumulative integral (times a positive constant)", signature="return value", ratio=nf.show(ratio, 200),
-    )
-    # ---- C15-b integrand == documented mobility == sibling
-    ynf = y if y is not None else it.to_nf(ev.data["args"].get("y") if y is None and not _is_root(it, ev.data["args"].get("y")) else ev.data["args"].get("x"))
-    ctx.identity(
-        "C15-b", q + ":integrand", where,
-        "the integrated quantity is rho_o(Rv krg/(mu_g Bg) + kro/(mu_o Bo)) + rho_g(Rs kro/(mu_o Bo) + krg/(mu_g Bg)) + rho_w krw/(mu_w Bw)",
-        ynf, mobility(),
-    )
+    from .common import each, handwritten_quadrature
+
     ql = FP + "lambda_combined_func"
     L = only(run(ctx, ql), ql, ctx, "C15-b").value
-    ctx.identity(
-        "C15-b", q + ":integrand vs lambda_combined_func", where,
-        "the integrand equals the library's own total mobility lambda_combined_func (sibling copies agree)",
-        ynf, L.nf if isinstance(L, Num) else nf.sym("?"),
-    )
+    results = each(it.run_function(q), q)
+    n_quad = 0
+    # every distinct result (a fast path written out by hand next to the library call, say) has to be the integral
+    for tag, p in results:
+        evs = [e for e in p.events if e.kind == "ext_call" and e.data["callee"] in QUADRATURE]
+        if len(evs) > 1:
+            raise AnalysisError(f"{q}: expected exactly one quadrature call, found {len(evs)}{tag}")
+        rv = it.to_nf(p.value)
+        if evs:
+            n_quad += 1
+            ev = evs[0]
+            where = f"{f.file}:{ev.line}"
+            y = check_quadrature(ctx, "C15-a", ev, it, {"pressure"}, q + ":cumulative_trapezoid" + tag, where)
+            # the function returns the quadrature result itself (times a constant at most)
+            ratio = nf.div(rv, it.to_nf(ev.data["result"]))
+            ctx.check(
+                nf.is_const(ratio) and nf.cval(ratio) > 0, "C15-a", q + ":return" + tag, f.where(),
+                "the function returns the cumulative integral (times a positive constant)", signature="return value", ratio=nf.show(ratio, 200),
+            )
+            ynf = y if y is not None else it.to_nf(ev.data["args"].get("y") if y is None and not _is_root(it, ev.data["args"].get("y")) else ev.data["args"].get("x"))
+        else:
+            where = f.where()
+            n_quad += 1
+            ynf = handwritten_quadrature(ctx, "C15-a", it, rv, {"pressure"}, q + ":hand-written trapezoid" + tag, where)
+            if ynf is None:
+                continue
+            # returned as it is: value == concat(0, cumsum(panels)) with no further factor
+            cat = [a_ for a_ in nf.atoms(rv) if a_[0] == "fn" and a_[1].split("{")[0] in ("numpy.concatenate", "numpy.hstack", "numpy.append", "numpy.r_", "numpy.insert")]
+            ratio = nf.div(rv, nf.atom_poly(cat[0])) if cat else {}
+            ctx.check(
+                bool(ratio) and nf.is_const(ratio) and nf.cval(ratio) > 0, "C15-a", q + ":return" + tag, f.where(),
+                "the function returns the cumulative integral (times a positive constant)", signature="return value", ratio=nf.show(ratio, 200),
+            )
+        # ---- C15-b integrand == documented mobility == sibling
+        ctx.identity(
+            "C15-b", q + ":integrand" + tag, where,
+            "the integrated quantity is rho_o(Rv krg/(mu_g Bg) + kro/(mu_o Bo)) + rho_g(Rs kro/(mu_o Bo) + krg/(mu_g Bg)) + rho_w krw/(mu_w Bw)",
+            ynf, mobility(),
+        )
+        ctx.identity(
+            "C15-b", q + ":integrand vs lambda_combined_func" + tag, where,
+            "the integrand equals the library's own total mobility lambda_combined_func (sibling copies agree)",
+            ynf, L.nf if isinstance(L, Num) else nf.sym("?"),
+        )
+    ctx.floor("C15-a", n_quad, 1, "quadrature in pseudopressure_threephase")
 
     check_from_table(ctx, "C15-c", q)
     from .common import check_interp_options
